@@ -535,6 +535,52 @@ theorem superset_key {F : BodyFn} {P : Project} {g : G} {marks : List Nat} {w : 
     · rw [(e2 hn hdry).1]; simp
     · rw [(e1 (by rw [hn]; intro e; cases e)).1, hn]; simp [repOf]
 
+/-- `superset_key` at the level of `build`: `d` is a complete dry run from `w` with the options of `cfg`, `r` the real
+build from the same world. -/
+theorem build_Q {F : BodyFn} {P : Project} {cfg : Cfg} {w : World} {dp rp : List Nat} {d r : Result}
+    (hreal : cfg.dry = false) (hmf : cfg.maxFail = none)
+    (wf : ∀ t, t ∈ P.tasks → ∀ u, u ∈ P.tasks → t.src ∉ u.prods)
+    (hpers : cfg.force = true → ∀ t, t ∈ P.tasks → t.persist = false)
+    (hd : build F P { cfg with dry := true } w dp = .ok d) (hc : d.complete = true)
+    (hr : build F P cfg w rp = .ok r) :
+    ∀ t, t ∈ rp →
+      ((t, Outcome.skip) ∈ d.reports → (t, Outcome.skip) ∈ r.reports) ∧
+      (((t, Outcome.fail) ∈ d.reports ∨ (t, Outcome.skipPrevFailed) ∈ d.reports) →
+        (t, Outcome.skip) ∈ r.reports ∨ (t, Outcome.skipPrevFailed) ∈ r.reports ∨ (t, Outcome.fail) ∈ r.reports) ∧
+      (t ∈ r.log → (t, Outcome.wouldBeExecuted) ∈ d.reports) := by
+  intro t ht
+  have hcongr : createDag P { cfg with dry := true } = createDag P cfg := createDag_congr P _ _ rfl rfl
+  rcases build_cases F P cfg w rp r hr with ⟨hbadR, _, hlog, hrep⟩ | ⟨g, marks, so, soR, sR, hdag, hso, hloopR, hrrep, hrlog, _, _⟩
+  · -- the DAG was rejected: nothing ran in either build
+    rcases build_cases F P _ w dp d hd with ⟨_, _, _, hdrep⟩ | ⟨g', marks', so', soD, sD, hdag', hso', _⟩
+    · rw [hdrep, hlog]; simp
+    · exfalso
+      rw [hcongr] at hdag'
+      rcases hbadR with ⟨e, he⟩ | ⟨g'', m'', e, he, hs⟩
+      · rw [hdag'] at he; cases he
+      · rw [hdag'] at he; cases he; rw [hso'] at hs; cases hs
+  · rcases build_cases F P _ w dp d hd with ⟨hbad, _⟩ | ⟨g', marks', so', soD, sD, hdag', hso', hloopD, hdrep, _, _, hdc⟩
+    · exfalso
+      rw [hcongr] at hbad
+      rcases hbad with ⟨e, he⟩ | ⟨g', m', e, he, hs⟩
+      · rw [hdag] at he; cases he
+      · rw [hdag] at he; cases he; rw [hso] at hs; cases hs
+    · rw [hcongr, hdag] at hdag'
+      cases hdag'
+      rw [hso] at hso'
+      cases hso'
+      have hflags := buildLoop_dry_flags (cfg := { cfg with dry := true }) rfl hmf dp so _ soD sD hloopD rfl rfl
+      have hact : soD.isActive = false := by
+        rw [hdc, hflags.1, hflags.2] at hc
+        simpa using hc
+      obtain ⟨pre, post, hp⟩ := List.append_of_mem ht
+      have := superset_key (cfgR := cfg) (cfgD := { cfg with dry := true }) _ rfl hdag (hcongr ▸ hdag) hso hreal rfl rfl
+        hloopD hloopR hact wf hpers pre.length pre t post hp rfl
+      unfold Q at this
+      rw [hdrep, hrrep, hrlog]
+      exact this
+
 end EngineDry
+
 
 end Pytask
